@@ -501,6 +501,7 @@ fn run_case(rep: &mut Report, case: u64, hashes: &mut BTreeMap<u64, u64>) {
         let mut c = new_world();
         let mut other = new_world();
         let seed = rng.next();
+        let mut nested = 0u64;
         std::thread::scope(|s| {
             let t = s.spawn(move || {
                 let mut far = new_world();
@@ -509,14 +510,35 @@ fn run_case(rep: &mut Report, case: u64, hashes: &mut BTreeMap<u64, u64>) {
                 }
                 far.out.len()
             });
+            let mut nest = Rng(seed ^ 0x5EED);
             for (i, (code, x, y, z)) in hist.iter().enumerate() {
                 disturb(&mut other, seed.wrapping_add(i as u64));
-                step(&mut c, *code, *x, *y, *z);
+                if nest.chance(1, 4) {
+                    // the operation runs while the unrelated world is in the middle of its own maintain
+                    // (from inside one of its lazy updates, on this thread)
+                    struct Ptr(*mut W);
+                    unsafe impl Send for Ptr {}
+                    unsafe impl Sync for Ptr {}
+                    let p = Ptr(&mut c as *mut W);
+                    let (code, x, y, z) = (*code, *x, *y, *z);
+                    other.world.read_resource::<LazyUpdate>().exec(move |_| {
+                        let p = p;
+                        // SAFETY: the closure runs inside the `maintain` call below, while `c` is not
+                        // otherwise used
+                        let c = unsafe { &mut *p.0 };
+                        step(c, code, x, y, z);
+                    });
+                    other.world.maintain();
+                    nested += 1;
+                } else {
+                    step(&mut c, *code, *x, *y, *z);
+                }
             }
             let _ = t.join();
         });
+        rep.bump("operations_run_inside_another_worlds_maintain", nested);
         if c.out != a.out {
-            failure = Some(("C20", format!("a world driven while unrelated worlds were mutated (in between and on another thread) produced a different transcript: {}", first_diff(&a.out, &c.out))));
+            failure = Some(("C20", format!("a world driven while unrelated worlds were mutated (in between, on another thread, and with operations run from inside another world's maintain) produced a different transcript: {}", first_diff(&a.out, &c.out))));
         }
     }
     let h = transcript_hash(&a.out);
